@@ -159,7 +159,8 @@ def run_shard(spec):
     res = {"evaluations": 0, "nontrivial_distinct": 0, "hashes": [], "violations": [], "samples": [],
            "counters": {"repr_eval": 0, "pickle": 0, "deepcopy": 0, "interpreter_limit": 0, "nodes": 0, "max_depth_nodes": 0}}
     rnd = random.Random(spec["rseed"])
-    texts = QUOTING + deep_programs(spec["tier"]) + [t for _, t in corpus.zoo() + corpus.repo_files()]
+    from ..gen import extras
+    texts = QUOTING + deep_programs(spec["tier"]) + [t for _, t in corpus.zoo() + corpus.repo_files() + extras.TEXTS]
     if spec.get("big"):
         texts += [t for _, t in corpus.big_files()]
     from ..gen import cases as _cases
